@@ -2,6 +2,7 @@
 the same events as the Lean `Host` model; canonical per-step logs for the comparison and for the
 trace monitors of C11 / C13 / C14 / C20."""
 import asyncio
+import contextvars
 from unittest import mock
 
 import rxworld
@@ -33,10 +34,13 @@ def kinds():
         "D": (lambda tsn: datareq(tsn), c.APS.DataReq.Rsp, dict(DstAddr=ieee, DstEndpoint=1, SrcEndpoint=1, TxTime=0, DstAddrMode=zt.AddrMode.NWK)),
         "W": (lambda tsn: wnv(tsn), c.NcpConfig.WriteNVRAM.Rsp, dict()),
         "B": (lambda tsn: wnv(tsn, 900), c.NcpConfig.WriteNVRAM.Rsp, dict()),
+        # body lengths 248 and 497: residues 1 and 3 modulo the fragment size
+        "E": (lambda tsn: wnv(tsn, 236), c.NcpConfig.WriteNVRAM.Rsp, dict()),
+        "F": (lambda tsn: wnv(tsn, 485), c.NcpConfig.WriteNVRAM.Rsp, dict()),
     }
 
 
-KEY = {"G": 1, "P": 2, "Z": 3, "D": 4, "W": 5, "B": 5}
+KEY = {"G": 1, "P": 2, "Z": 3, "D": 4, "W": 5, "B": 5, "E": 5, "F": 5}
 
 
 def rsp_bytes(Rsp, tsn, seq, **kw):
@@ -61,7 +65,14 @@ class HostWorld:
             p = uart.ZbossNcpProtocol(cfg[conf.CONF_DEVICE], api)
             return api, p
         self.api, self.p = self.loop.run_until_complete(mk())
-        self.tr = rxworld.RecTransport(self.log)
+        # the request a write belongs to: every request task carries its id in a context variable
+        self.cur = contextvars.ContextVar("request_id", default=0)
+        world = self
+
+        class Tr(rxworld.RecTransport):
+            def write(self, b):
+                self.log.append("W%s#%d" % (hx(bytes(b)), world.cur.get()))
+        self.tr = Tr(self.log)
         self.p._transport = self.tr
         self.api._uart = self.p
         app = mock.Mock()
@@ -75,7 +86,10 @@ class HostWorld:
         return len(self.log)
 
     def start(self, i, req, timeout_s):
-        tk = self.loop.create_task(self.api.request(req, timeout=timeout_s))
+        async def runner():
+            self.cur.set(i)
+            return await self.api.request(req, timeout=timeout_s)
+        tk = self.loop.create_task(runner())
         self.tasks[i] = tk
 
         def done(tk, i=i):
